@@ -197,14 +197,14 @@ def run(ck):
                 shapes = ck.export("ThreadPool_Export", cfg_text=f"CONSTANTS\n MaxItems = {mi}\n MaxThreads = {mt}\n")
                 ck.exhaustive = False
                 ck.extra["call_shapes_enumerated"] = len(shapes)
-                reps = ck.pick(1, 5)
+                reps = ck.pick(1, 3)
                 for c in shapes:
                     for k in range(reps):
                         execute(dict(n=c["n"], threads=c["threads"], haslen=c["haslen"], style=c["style"], out=list(c["out"])), 1000 * k + 7)
                 ck.sample(dict(direction="spec->code", shape=shapes[len(shapes) // 2]))
                 # 3. code -> spec
                 r_ = rng(41)
-                for k in range(ck.pick(250, 2500)):
+                for k in range(ck.pick(250, 2000)):
                     n = r_.choice([0, 1, 2, 3, 5, 8, 13, 21, 34, 50])
                     case = dict(n=n, threads=r_.randint(1, 8), haslen=r_.random() < 0.5, style=r_.choice(["gen", "ret"]),
                                 out=[r_.choice([0, 1, 1, 2]) for _ in range(n)])
